@@ -608,7 +608,7 @@ func sampleTs(t *rapid.T) int64 {
 	case 2:
 		return -int64(rapid.IntRange(1, 100000).Draw(t, "tsneg"))
 	case 3:
-		return rapid.Int64Range(-(1 << 46), 1<<46).Draw(t, "tsany")
+		return rapid.Int64Range(-(1<<46), 1<<46).Draw(t, "tsany")
 	case 4:
 		return 1_700_000_000_000 + 1000*int64(rapid.IntRange(0, 100000).Draw(t, "tssec"))
 	default:
